@@ -860,9 +860,13 @@ class ComposerBinary(ComposerBase):
 
                 if item_size == 3:
                     if self.byte_order in [ByteOrder.BIG_ENDIAN, ByteOrder.NETWORK]:
-                        composed_bytes += packed_bytes[1:]
+                        dropped_bytes, packed_bytes = packed_bytes[:1], packed_bytes[1:]
                     else:
-                        composed_bytes += packed_bytes[:3]
+                        dropped_bytes, packed_bytes = packed_bytes[3:], packed_bytes[:3]
+                    if dropped_bytes != b'\x00':
+                        raise InvalidValue(value, int)
+
+                    composed_bytes += packed_bytes
                 else:
                     composed_bytes += packed_bytes
             except struct.error as e:
